@@ -125,7 +125,7 @@ def run_cases(mod, cases, ctx):
         except CaseTimeout as exc:
             acc.n += 1
             acc.viols.append(Viol(case, 'horizon', 'timeout', str(exc)))
-        except Exception as exc:   # escaped the oracle: propka crashed, or the harness did
+        except (Exception, SystemExit) as exc:   # escaped the oracle: propka crashed (or called sys.exit), or the harness did
             acc.n += 1
             tb = traceback.extract_tb(exc.__traceback__)
             last = tb[-1].filename if tb else ''
@@ -157,7 +157,7 @@ def _worker(args):
         else:
             acc = run_cases(mod, shard, ctx)
         return acc.dump()
-    except Exception:
+    except BaseException:   # noqa: BLE001
         return dict(died=traceback.format_exc()[-3000:])
     finally:
         os.chdir(old)
@@ -219,6 +219,71 @@ def match_known(known, class_key):
 
 
 # ---------------------------------------------------------------- driver
+def pmap_unordered(fn, jobs, nproc, timeout=7200.0):
+    """Run fn(job) for every job, each in a fresh fork of this process, at most nproc at a time; yields results as they finish.
+    A child that exits without delivering a result (sys.exit inside the code under test, a crash of the interpreter, a kill) or
+    that exceeds the timeout yields dict(died=...) instead of blocking the run for ever (multiprocessing.Pool would)."""
+    import pickle
+    import select
+    import signal
+    pending = list(jobs)
+    pending.reverse()
+    running = {}     # read fd -> [pid, chunks, start time]
+    while pending or running:
+        while pending and len(running) < max(1, nproc):
+            job = pending.pop()
+            r, w = os.pipe()
+            pid = os.fork()
+            if pid == 0:
+                code = 0
+                try:
+                    os.close(r)
+                    for fd in list(running):
+                        try:
+                            os.close(fd)
+                        except OSError:
+                            pass
+                    try:
+                        payload = pickle.dumps(('ok', fn(job)))
+                    except BaseException:   # noqa: BLE001  (SystemExit raised by the code under test included)
+                        payload = pickle.dumps(('err', traceback.format_exc()[-3000:]))
+                    with os.fdopen(w, 'wb') as fh:
+                        fh.write(payload)
+                except BaseException:   # noqa: BLE001
+                    code = 1
+                finally:
+                    os._exit(code)
+            os.close(w)
+            running[r] = [pid, [], time.time()]
+        ready, _, _ = select.select(list(running), [], [], 1.0)
+        now = time.time()
+        for fd in list(running):
+            pid, chunks, t0 = running[fd]
+            if fd in ready:
+                data = os.read(fd, 1 << 20)
+                if data:
+                    chunks.append(data)
+                    continue
+                os.close(fd)
+                _, status = os.waitpid(pid, 0)
+                del running[fd]
+                blob = b''.join(chunks)
+                if not blob:
+                    yield dict(died='worker process ended without a result (wait status %d)' % status)
+                    continue
+                kind, val = pickle.loads(blob)
+                yield val if kind == 'ok' else dict(died=val)
+            elif now - t0 > timeout:
+                try:
+                    os.kill(pid, signal.SIGKILL)
+                except OSError:
+                    pass
+                os.close(fd)
+                os.waitpid(pid, 0)
+                del running[fd]
+                yield dict(died='worker process killed after %.0f s' % timeout)
+
+
 def gather(modname, shards, tier, seed, nproc, agg=None, worker=None):
     """Run shards in forked workers (one process per shard) and merge their accumulators."""
     order = list(range(len(shards)))
@@ -230,10 +295,9 @@ def gather(modname, shards, tier, seed, nproc, agg=None, worker=None):
     died = []
     if not shards:
         return agg, died
-    with mp.Pool(min(nproc, max(1, len(shards))), maxtasksperchild=1) as pool:
-        jobs = [(modname, shards[i], tier, seed, False) for i in order]
-        for res in pool.imap_unordered(worker or _worker, jobs, chunksize=1):
-            merge(agg, res, died)
+    jobs = [(modname, shards[i], tier, seed, False) for i in order]
+    for res in pmap_unordered(worker or _worker, jobs, min(nproc, max(1, len(shards)))):
+        merge(agg, res, died)
     return agg, died
 
 
